@@ -6,18 +6,19 @@ import Nv.Proofs.C09Marshal
 C09 — property theorems for `Bit1024.Marshal/Unmarshal`, `BigU32` and `U32BitTip`
 (model: `Nv.Model.C09` on top of the C08 bitmap model; proofs: `Nv/Proofs/C09*.lean`).
 
-`Proved c` = the repaired configuration (`int64(Start)*C1K` in both BigU32 iterators, `getNAsU32` dispatching
-`reverse ⇒ RIterAsU32`). For the configuration found on today's tree (`cfgToday`) the witnesses below prove the
-negation by a concrete input, which is also the replay on the Go side.
+`Proved c` = the configuration of the repaired source (`int64(Start)*C1K` in both BigU32 iterators, `getNAsU32`
+dispatching `reverse ⇒ RIterAsU32`) — this is what /repo contains since commits f369e56 and d9c43db. `cfgUnrepaired` is
+the configuration the extractor produced *before* those repairs; the `witness_*` theorems keep the concrete inputs on
+which the property is false for it (they are the replays that exposed F07 / F08, and what a revert would reproduce).
 -/
 namespace Nv.C09
 open Nv.C08
 
-def cfgToday : Cfg := ⟨⟨9, 64, 16⟩, .u32mul, .u32mul, .swapped, 1024, 64⟩
-def cfgFixed : Cfg := ⟨⟨9, 64, 16⟩, .i64mul, .i64mul, .straight, 1024, 64⟩
+def cfgUnrepaired : Cfg := ⟨⟨9, 64, 16⟩, .u32mul, .u32mul, .swapped, 1024, 64, 128⟩
+def cfgFixed : Cfg := ⟨⟨9, 64, 16⟩, .i64mul, .i64mul, .straight, 1024, 64, 128⟩
 
 theorem cfgFixed_proved : Proved cfgFixed := by decide
-theorem cfgToday_not_proved : ¬ Proved cfgToday := by decide
+theorem cfgUnrepaired_not_proved : ¬ Proved cfgUnrepaired := by decide
 
 /-! ### Marshal / Unmarshal round trip -/
 
@@ -26,6 +27,12 @@ theorem cfgToday_not_proved : ¬ Proved cfgToday := by decide
     Uses `iter1024_spec` of C08 for the member list `GetNAsI16(n)` produces. -/
 theorem marshal_roundtrip (c : Cfg) (hc : Proved c) (magic : Int) (b : Bit1024) :
     ∃ bs, marshal c magic b = some bs ∧ unmarshal empty1024 bs = .ok b := marshal_roundtrip_all c hc magic b
+
+/-- encoding sizes: nothing for the empty set, 2 bytes per member below 64 members, 128 bytes otherwise -/
+theorem marshal_size (c : Cfg) (hc : Proved c) (magic : Int) (b : Bit1024) :
+    ∃ bs, marshal c magic b = some bs ∧
+      bs.length = (if (members1024 b).length = 0 then 0 else if (members1024 b).length < 64 then 2 * (members1024 b).length else 128) :=
+  marshal_size_all c hc magic b
 
 /-- the byte form of a byte pair / 8-byte group is the little-endian value (used by both directions) -/
 theorem le_bytes_roundtrip (v : BitVec 16) (x : BitVec 64) :
@@ -50,6 +57,18 @@ theorem unmarshal_total_exact (buf : List Byte) :
   | ok b' => exact Or.inr ⟨b', rfl, unmarshal_exact buf b' h⟩
   | err e b => exact Or.inl ⟨e, b, rfl⟩
   | panic => exact absurd h (unmarshal_no_panic _ _)
+
+/-- the target must be fresh for that: `Unmarshal` does not clear its receiver (read `bit1024.go`: the sparse branch only
+    calls `SetI16`, the dense branch assigns all 16 words). Into an arbitrary bitmap `b` a successful call yields `b` for
+    no bytes, `b ∪ denoted set` for the sparse form, and the denoted set alone for the dense form. -/
+theorem unmarshal_into_any (b : Bit1024) (buf : List Byte) (b' : Bit1024) (h : unmarshal b buf = .ok b') :
+    ∀ i, i < 1024 → (mem1024 b' i = true ↔
+      (if buf = [] then mem1024 b i = true
+       else if buf.length < 128 then (mem1024 b i = true ∨ denotes buf i)
+       else denotes buf i)) := unmarshal_into b buf b' h
+
+-- a stale member survives a sparse Unmarshal into a non-fresh bitmap (why freshness is required)
+example : unmarshal (setI16 empty1024 5#16) [1#8, 0#8] = .ok (setI16 (setI16 empty1024 5#16) 1#16) := by decide
 
 /-- more than 128 bytes or an odd number of bytes is always rejected, and the bitmap is left untouched -/
 theorem unmarshal_rejects_bad_length (b : Bit1024) (buf : List Byte) (h : buf.length > 128 ∨ buf.length % 2 = 1) :
@@ -172,48 +191,79 @@ theorem bigOffset_proved (c : Cfg) (hc : Proved c) (rev : Bool) (s : BitVec 32) 
     bigOffset c rev s = BitVec.setWidth 64 s * 1024#64 := by
   cases rev <;> simp [bigOffset, hc.2.1, hc.2.2.1, offsetOf]
 
-/-- `BigU32.GetNAsI64 / RGetNAsI64`: the first `min(n, Len)` integers of the block, as `int64` values strictly
-    ascending (forward) resp. strictly descending (reverse); any `uint32` start, no wrap-around -/
+/-- **`BigU32.GetNAsI64 / RGetNAsI64`, exact output** (n ≥ 0, any `uint32` start, every threshold): the returned list
+    `l` (nil when empty) consists, as `int64` values, of exactly `Start·1024 + m` for the first `min(n, Len)` members
+    `m` of the block's set in ascending (`rev = false`) resp. descending (`rev = true`) order — no wrap-around. -/
+theorem block_iteration_exact (c : Cfg) (hc : Proved c) (magic : Int) (rev : Bool) (blk : Block) (n : Int) (hn : 0 ≤ n) :
+    ∃ l, bigGetN c magic rev blk n = (if l = [] then GetN.nil else .slice l) ∧
+      l.map BitVec.toInt =
+        ((if rev then (members1024 blk.bits).reverse else members1024 blk.bits).take n.toNat).map
+          (fun (m : Nat) => ((blk.start.toNat * 1024 : Nat) : Int) + (m : Int)) := by
+  unfold bigGetN bigIter
+  rw [getN_of_iter c.base hc.1 magic rev _ _ n hn]
+  refine ⟨_, rfl, ?_⟩
+  exact expected_values BitVec.toInt ((blk.start.toNat * 1024 : Nat) : Int) _ (members1024_lt _) _
+    (fun i hi => by rw [bigOffset_proved c hc]; exact big_value blk.start i hi) rev n
+
+/-- forward iteration of a BigU32 block: exactly the first `min(n, Len)` integers of the block, strictly ascending -/
 theorem block_forward_ascending (c : Cfg) (hc : Proved c) (magic : Int) (blk : Block) (n : Int) (hn : 0 ≤ n) :
     ∃ l, bigGetN c magic false blk n = (if l = [] then GetN.nil else .slice l) ∧
+      l.map BitVec.toInt = ((members1024 blk.bits).take n.toNat).map (fun (m : Nat) => ((blk.start.toNat * 1024 : Nat) : Int) + (m : Int)) ∧
       l.length = min n.toNat (members1024 blk.bits).length ∧ (l.map BitVec.toInt).Pairwise (· < ·) := by
   unfold bigGetN bigIter
   rw [getN_of_iter c.base hc.1 magic false _ _ n hn]
-  refine ⟨_, rfl, expected_length _ _ _ _, ?_⟩
-  exact (expected_pairwise BitVec.toInt ((blk.start.toNat * 1024 : Nat) : Int) _ (members1024_asc _) (members1024_lt _) _
-    (fun i hi => by rw [bigOffset_proved c hc]; exact big_value blk.start i hi) n).1
+  have hv : ∀ i, i < 1024 → (BitVec.ofNat 64 i + bigOffset c false blk.start).toInt = ((blk.start.toNat * 1024 : Nat) : Int) + i :=
+    fun i hi => by rw [bigOffset_proved c hc]; exact big_value blk.start i hi
+  refine ⟨_, rfl, ?_, expected_length _ _ _ _, ?_⟩
+  · simpa using expected_values BitVec.toInt ((blk.start.toNat * 1024 : Nat) : Int) _ (members1024_lt _) _ hv false n
+  · exact (expected_pairwise BitVec.toInt ((blk.start.toNat * 1024 : Nat) : Int) _ (members1024_asc _) (members1024_lt _) _ hv n).1
 
+/-- reverse iteration: exactly the last `min(n, Len)` integers of the block, largest first, strictly descending -/
 theorem block_reverse_descending (c : Cfg) (hc : Proved c) (magic : Int) (blk : Block) (n : Int) (hn : 0 ≤ n) :
     ∃ l, bigGetN c magic true blk n = (if l = [] then GetN.nil else .slice l) ∧
+      l.map BitVec.toInt = ((members1024 blk.bits).reverse.take n.toNat).map (fun (m : Nat) => ((blk.start.toNat * 1024 : Nat) : Int) + (m : Int)) ∧
       l.length = min n.toNat (members1024 blk.bits).length ∧ (l.map BitVec.toInt).Pairwise (· > ·) := by
   unfold bigGetN bigIter
   rw [getN_of_iter c.base hc.1 magic true _ _ n hn]
-  refine ⟨_, rfl, expected_length _ _ _ _, ?_⟩
-  exact (expected_pairwise BitVec.toInt ((blk.start.toNat * 1024 : Nat) : Int) _ (members1024_asc _) (members1024_lt _) _
-    (fun i hi => by rw [bigOffset_proved c hc]; exact big_value blk.start i hi) n).2
+  have hv : ∀ i, i < 1024 → (BitVec.ofNat 64 i + bigOffset c true blk.start).toInt = ((blk.start.toNat * 1024 : Nat) : Int) + i :=
+    fun i hi => by rw [bigOffset_proved c hc]; exact big_value blk.start i hi
+  refine ⟨_, rfl, ?_, expected_length _ _ _ _, ?_⟩
+  · simpa using expected_values BitVec.toInt ((blk.start.toNat * 1024 : Nat) : Int) _ (members1024_lt _) _ hv true n
+  · exact (expected_pairwise BitVec.toInt ((blk.start.toNat * 1024 : Nat) : Int) _ (members1024_asc _) (members1024_lt _) _ hv n).2
 
-/-- `U32BitTip.GetNAsU32 / RGetNAsU32` (start within `MaxU32TipStart`, as every constructor guarantees) -/
+/-- `U32BitTip.GetNAsU32 / RGetNAsU32`, exact output (start within `MaxU32TipStart`, as every constructor guarantees):
+    the `uint32` values are exactly `Start·1024 + m` for the first `min(n, Len)` members, ascending resp. descending -/
 theorem tip_forward_ascending (c : Cfg) (hc : Proved c) (magic : Int) (blk : Block) (hst : blk.start.toNat ≤ 4194303)
     (n : Int) (hn : 0 ≤ n) :
     ∃ l, tipGetN c magic false blk n = (if l = [] then GetN.nil else .slice l) ∧
+      l.map (fun v => (v.toNat : Int)) = ((members1024 blk.bits).take n.toNat).map (fun (m : Nat) => ((blk.start.toNat * 1024 : Nat) : Int) + (m : Int)) ∧
       l.length = min n.toNat (members1024 blk.bits).length ∧ (l.map (fun v => (v.toNat : Int))).Pairwise (· < ·) := by
   unfold tipGetN tipIter
   have hd : tipDir c false = false := by simp [tipDir, hc.2.2.2.1]
   rw [hd, getN_of_iter c.base hc.1 magic false _ _ n hn]
-  refine ⟨_, rfl, expected_length _ _ _ _, ?_⟩
-  exact (expected_pairwise (fun v => (v.toNat : Int)) ((blk.start.toNat * 1024 : Nat) : Int) _ (members1024_asc _) (members1024_lt _) _
-    (fun i hi => by rw [hc.2.2.2.2.1]; exact tip_value blk.start hst i hi) n).1
+  have hv : ∀ i, i < 1024 → ((BitVec.ofNat 32 i + blk.start * BitVec.ofNat 32 c.c1k).toNat : Int) = ((blk.start.toNat * 1024 : Nat) : Int) + i :=
+    fun i hi => by rw [hc.2.2.2.2.1]; exact tip_value blk.start hst i hi
+  refine ⟨_, rfl, ?_, expected_length _ _ _ _, ?_⟩
+  · simpa using expected_values (fun v => (v.toNat : Int)) ((blk.start.toNat * 1024 : Nat) : Int) _ (members1024_lt _) _ hv false n
+  · exact (expected_pairwise (fun v => (v.toNat : Int)) ((blk.start.toNat * 1024 : Nat) : Int) _ (members1024_asc _) (members1024_lt _) _ hv n).1
 
 theorem tip_reverse_descending (c : Cfg) (hc : Proved c) (magic : Int) (blk : Block) (hst : blk.start.toNat ≤ 4194303)
     (n : Int) (hn : 0 ≤ n) :
     ∃ l, tipGetN c magic true blk n = (if l = [] then GetN.nil else .slice l) ∧
+      l.map (fun v => (v.toNat : Int)) = ((members1024 blk.bits).reverse.take n.toNat).map (fun (m : Nat) => ((blk.start.toNat * 1024 : Nat) : Int) + (m : Int)) ∧
       l.length = min n.toNat (members1024 blk.bits).length ∧ (l.map (fun v => (v.toNat : Int))).Pairwise (· > ·) := by
   unfold tipGetN tipIter
   have hd : tipDir c true = true := by simp [tipDir, hc.2.2.2.1]
   rw [hd, getN_of_iter c.base hc.1 magic true _ _ n hn]
-  refine ⟨_, rfl, expected_length _ _ _ _, ?_⟩
-  exact (expected_pairwise (fun v => (v.toNat : Int)) ((blk.start.toNat * 1024 : Nat) : Int) _ (members1024_asc _) (members1024_lt _) _
-    (fun i hi => by rw [hc.2.2.2.2.1]; exact tip_value blk.start hst i hi) n).2
+  have hv : ∀ i, i < 1024 → ((BitVec.ofNat 32 i + blk.start * BitVec.ofNat 32 c.c1k).toNat : Int) = ((blk.start.toNat * 1024 : Nat) : Int) + i :=
+    fun i hi => by rw [hc.2.2.2.2.1]; exact tip_value blk.start hst i hi
+  refine ⟨_, rfl, ?_, expected_length _ _ _ _, ?_⟩
+  · simpa using expected_values (fun v => (v.toNat : Int)) ((blk.start.toNat * 1024 : Nat) : Int) _ (members1024_lt _) _ hv true n
+  · exact (expected_pairwise (fun v => (v.toNat : Int)) ((blk.start.toNat * 1024 : Nat) : Int) _ (members1024_asc _) (members1024_lt _) _ hv n).2
+
+-- non-vacuity: a full block (all 1024 members, built as the complement of the empty block) asked for 1024 / 1025 values
+example (j : Nat) (hj : j < 1024) : mem1024 (reverse1024 empty1024) j = true := by
+  rw [reverse1024_mem _ _ hj, mem_empty1024]; rfl
 
 /-- every block the constructors produce satisfies the start bound used above -/
 theorem newTip_start_le (u : BitVec 32) : (newTipFromU32 u).start.toNat ≤ 4194303 := by
@@ -222,26 +272,26 @@ theorem newTip_start_le (u : BitVec 32) : (newTipFromU32 u).start.toNat ≤ 4194
   simp only [newTipFromU32]
   omega
 
-/-! ### today's tree: the property is false of the configuration regenerated from the unrepaired source -/
+/-! ### the unrepaired configuration (before f369e56 / d9c43db): the property is false of it, by concrete witnesses -/
 
 /-- F07 — `int64(b.Start*C1K)` multiplies in `uint32`: the block of `2^33+5` iterates to `[5]` -/
 theorem witness_bigu32_offset_wraps :
-    (newBigFromI64 8589934597#64).map (fun b => bigGetN cfgToday 9 false b 1) = some (.slice [5#64]) := by decide
+    (newBigFromI64 8589934597#64).map (fun b => bigGetN cfgUnrepaired 9 false b 1) = some (.slice [5#64]) := by decide
 
 theorem witness_bigu32_roffset_wraps :
-    (newBigFromI64 8589934597#64).map (fun b => bigGetN cfgToday 9 true b 1) = some (.slice [5#64]) := by decide
+    (newBigFromI64 8589934597#64).map (fun b => bigGetN cfgUnrepaired 9 true b 1) = some (.slice [5#64]) := by decide
 
 /-- F08 — `getNAsU32` dispatch swapped: the forward call on {7, 9} answers `[9, 7]`, the reverse call `[7, 9]` -/
 theorem witness_u32tip_forward_descending :
-    tipGetN cfgToday 9 false (tipSetU32 (newTipFromU32 7#32) 9#32).1 2 = .slice [9#32, 7#32] := by decide
+    tipGetN cfgUnrepaired 9 false (tipSetU32 (newTipFromU32 7#32) 9#32).1 2 = .slice [9#32, 7#32] := by decide
 
 theorem witness_u32tip_reverse_ascending :
-    tipGetN cfgToday 9 true (tipSetU32 (newTipFromU32 7#32) 9#32).1 2 = .slice [7#32, 9#32] := by decide
+    tipGetN cfgUnrepaired 9 true (tipSetU32 (newTipFromU32 7#32) 9#32).1 2 = .slice [7#32, 9#32] := by decide
 
-/-- hence `bigu32_roundtrip` does not hold for `cfgToday` -/
-theorem not_bigu32_roundtrip_today :
+/-- hence `bigu32_roundtrip` does not hold for `cfgUnrepaired` -/
+theorem not_bigu32_roundtrip_unrepaired :
     ¬ (∀ (v : BitVec 64), 0 ≤ v.toInt ∧ v.toInt < 4398046510080 →
-        ∃ blk, newBigFromI64 v = some blk ∧ bigGetN cfgToday 9 false blk 1 = .slice [v]) := by
+        ∃ blk, newBigFromI64 v = some blk ∧ bigGetN cfgUnrepaired 9 false blk 1 = .slice [v]) := by
   intro h
   obtain ⟨blk, h1, h2⟩ := h 8589934597#64 (by decide)
   have hw := witness_bigu32_offset_wraps
